@@ -110,4 +110,20 @@ CHECKS = {
         "level_text": "Decides the buffer mechanism that every writer/reader schedule relies on, for all paths of the iterator; the interleaving quantifier itself and BufReader's EOF behaviour (std) are not enumerated.",
         "level_note": 'Trusted: std BufReader::read_until semantics at EOF; MIR of the nightly front end; transfer-function table for std String/Vec APIs in rules_c10.py.',
     },
+    "C08": {
+        "modules": ["rules_c08"],
+        "explanation": 'Must-pass-through rules on the MIR of SelectExecutionEngine::execute and AggregateExecutionEngine::execute_result: every emission (Row::new / push of a result Row) is reachable only through the distinct==false edge or the DistinctValues::add(..)==true edge (edge-cut reachability, so a test nested under HAVING is detected), a duplicate is never emitted, the tuple tested is the tuple emitted (provenance), the aggregate DISTINCT memory is local to one result table; DistinctValues::add is contains-then-insert on a HashSet whose element type (resolved generic argument) is the whole Vec<Value> tuple and returns false/true accordingly.',
+        "trusted": ["rustc nightly MIR + trait resolution", "dependencies behave as documented"],
+        "technique": 'static edge-cut reachability (must-pass-through), provenance and resolved-type rules on MIR',
+        "level_text": "Decides the structural clauses of DISTINCT (where the test sits, what it is applied to, what the set stores). Value equality itself is C16's subject.",
+        "level_note": 'Trusted: std HashSet semantics; MIR of the nightly front end.',
+    },
+    "C11": {
+        "modules": ["rules_c11"],
+        "explanation": 'Composition, arm-table and effect rules on MIR: AggregateExecutionEngine::execute is execute_update followed, exactly when it returned true, by execute_result; ExecutionEngine::execute dispatches the three aggregate entry points under the (update,result) guard table read from the dominating branches on config fields; effect analysis of the result phase: every &mut borrow of an engine field in execute_result goes to a listed repeatable use (iter_mut for update_value, get_group followed by an overwrite), update_value only sorts, no reachable callee writes through &mut self; the SELECT path reads no config; ExecutionOutput constructors store the result row unmodified.',
+        "trusted": ["rustc nightly MIR + trait resolution", "dependencies behave as documented"],
+        "technique": 'static effect (write-set) analysis of the result phase, guard-table extraction and composition checks on MIR',
+        "level_text": 'Decides the state discipline that makes follow and batch runs execute the same computation; equality of the produced tables is not compared.',
+        "level_note": 'Trusted: MIR of the nightly front end; listed repeatable uses in rules_c11.py.',
+    },
 }
